@@ -375,7 +375,29 @@ def proof_step(rep, pid):
                         checker_cmd=r["checker_cmd"], theorems=r["theorems"],
                         examples=r.get("examples", []),
                         print_assumptions="%d/%d 'Closed under the global context'" % (r["closed"], r["prints"]))
+    if rep.tier == "thorough":
+        rep.coverage["coqchk"] = coqchk(pid)
     return True
+
+
+def coqchk(pid):
+    """independent re-check of the compiled property file and everything it depends on (thorough tier)"""
+    t0 = time.time()
+    with Lock("coq"):
+        rc, out = sh("timeout 5400 coqchk -silent -o -Q . FsDb FsDb.Properties.%s" % pid, cwd=COQ, timeout=5500)
+    if rc != 0:
+        raise CheckBroken("coqchk failed on Properties/%s: %s" % (pid, out[-2000:]))
+    res = {}
+    for key, pat in (("axioms", "Axioms"), ("type_in_type", "relying on type-in-type"),
+                     ("unsafe_fixpoints", "relying on unsafe"), ("assumed_positivity", "positivity is assumed")):
+        m = re.search(r"\* [^\n]*%s[^\n]*:\s*(.*?)\n\s*\n" % pat, out + "\n\n", re.S)
+        res[key] = " ".join(m.group(1).split()) if m else "?"
+    bad = {k: v for k, v in res.items() if v != "<none>"}
+    if bad:
+        raise CheckBroken("coqchk reports %s under Properties/%s" % (bad, pid))
+    res["seconds"] = round(time.time() - t0, 1)
+    res["cmd"] = "coqchk -silent -o -Q . FsDb FsDb.Properties.%s" % pid
+    return res
 
 
 def rng_for(seed, tag):
